@@ -365,6 +365,7 @@ func checkC15(c *Ctx) {
 	c.c15Broadcast(hubFns, fList, fOp)
 	c.c15DropFailed(hubFns, fList)
 	c.c15FailedIsDropped(hubFns, fList)
+	c.c15RecoverEffective(hubFns)
 	c.c15QueueCapacity()
 	c.c15CloseOnce()
 	c.c15Wiring()
@@ -2014,4 +2015,49 @@ func (c *Ctx) c15FailedIsDropped(hubFns []*ssa.Function, fList *types.Var) {
 		})
 	}
 	r.Floor(rule, "Listener calls in relay loops", n, 1)
+}
+
+// c15RecoverEffective: the hub goroutine survives a panicking listener only if the recover that
+// is meant to stop the panic is called directly by a deferred function. recover() inside a helper
+// that the deferred function calls always returns nil: the panic goes on through Hub.Start, the
+// hub goroutine dies, no listener sees another event and every producer blocks.
+func (c *Ctx) c15RecoverEffective(hubFns []*ssa.Function) {
+	r, p := c.R, c.P
+	rule := "C15/HUB/recover-effective"
+	r.Rule(rule, "every recover() in pkg/msghub is called by a function that is itself the operand of a defer statement (a function literal or a named function deferred directly)")
+	deferred := map[*ssa.Function]bool{}
+	for _, fn := range hubFns {
+		eng.EachInstr(fn, func(in ssa.Instruction) {
+			df, ok := in.(*ssa.Defer)
+			if !ok {
+				return
+			}
+			if g := eng.StaticCallee(df.Common()); g != nil {
+				deferred[g] = true
+			}
+			if mc, ok := df.Call.Value.(*ssa.MakeClosure); ok {
+				if g, ok := mc.Fn.(*ssa.Function); ok {
+					deferred[g] = true
+				}
+			}
+		})
+	}
+	n := 0
+	for _, fn := range hubFns {
+		fn := fn
+		eng.EachInstr(fn, func(in ssa.Instruction) {
+			call, ok := in.(*ssa.Call)
+			if !ok || eng.CalleeName(call.Common()) != "builtin.recover" {
+				return
+			}
+			n++
+			cons := "recover@" + shortFn(fn)
+			if deferred[fn] {
+				r.Ok(rule, cons, p.InstrPos(in), "called directly by a deferred function")
+			} else {
+				r.Bad(rule, cons, p.InstrPos(in), "recover() is called in %s, which no defer statement names: it returns nil whatever is unwinding, so a listener that panics once kills the hub goroutine — no monitor receives another event and producers block for ever", shortFn(fn))
+			}
+		})
+	}
+	r.Floor(rule, "recover() calls in the hub", n, 1)
 }
